@@ -131,8 +131,8 @@ def canon(v):  # pylint: disable=too-many-return-statements,too-many-branches
         return {"__cmap__": [canon(getattr(v, "name", None)), canon(getattr(v, "_values", None))]}
     if cname == "ReferenceValueMap":
         return {"__vmap__": canon(dict(v.map))}
-    if cname.endswith("ImageFile") or hasattr(v, "tobytes") and hasattr(v, "mode") and hasattr(v, "size"):
-        return ("image", list(v.size), v.mode, hashlib.sha1(v.tobytes()).hexdigest())
+    if cname.endswith("ImageFile") or cname == "Image" or (hasattr(v, "tobytes") and hasattr(v, "mode") and hasattr(v, "getpixel")):
+        return ("image", tuple(v.size), v.mode, hashlib.sha1(v.tobytes()).hexdigest())
     if _is_entity(v):
         return ("ref", str(v.uid))
     return ("opaque", cname, repr(v)[:80])
@@ -173,6 +173,19 @@ def same(a, b, rel=1e-9):  # pylint: disable=too-many-return-statements
     if type(a) is not type(b):  # pylint: disable=unidiomatic-typecheck
         return False
     return a == b
+
+
+def normalise(cls_name, attr, value):
+    """attribute-specific normal form applied to BOTH sides of every comparison (never to one side only)"""
+    if cls_name == "VisualParameters" and attr == "values" and isinstance(value, str) and value.lstrip().startswith("<"):
+        # the getter returns the text as stored or, once the xml has been parsed (e.g. by reading .colour), the
+        # re-serialised tree: equal XML documents, different white space (visual_parameters.py:55-66)
+        import xml.etree.ElementTree as ET
+        try:
+            return ET.canonicalize(value, strip_text=True)
+        except ET.ParseError:
+            return value
+    return value
 
 
 def short(v, n=90):
@@ -267,22 +280,24 @@ def target_name(t):
 # fixtures: one stored instance per target
 V3 = np.array([[0.0, 0.0, 0.0], [1.0, 2.0, 3.0], [4.0, 1.0, -2.0]])
 LOOP = np.array([[0, 1], [1, 2], [2, 0]], dtype="uint32")
+V5 = np.array([[0.0, 0.0, 0.0], [1.0, 2.0, 3.0], [4.0, 1.0, -2.0], [5.0, 3.0, 0.5], [7.0, 2.0, 1.5]])
+LINE = np.array([[0, 1], [1, 2], [2, 3], [3, 4]], dtype="uint32")
 
 
 def _survey_pair(ws, objects, name):
     """receivers + transmitters classes of one EM survey family, linked."""
     rx_name = name.replace("Transmitters", "Receivers").replace("BaseStations", "Receivers")
     rx_cls = getattr(objects, rx_name)
-    rx = rx_cls.create(ws, vertices=V3.copy(), name="rx")
+    rx = rx_cls.create(ws, vertices=V5.copy(), name="rx")
     other = None
     proto = rx
     if name.startswith("Tipper"):
-        other = objects.TipperBaseStations.create(ws, vertices=V3 + 10.0, name="base")
+        other = objects.TipperBaseStations.create(ws, vertices=V5 + 10.0, name="base")
         rx.base_stations = other
         return rx, other
     tx_type = proto.default_transmitter_type
     if tx_type is not type(None):
-        other = tx_type.create(ws, vertices=V3 + 10.0, name="tx")
+        other = tx_type.create(ws, vertices=V5 + 10.0, name="tx")
         rx.transmitters = other
     return rx, other
 
@@ -307,9 +322,9 @@ def _object_kwargs(name):
                 "prisms": np.array([[0.0, 0.0, 0.0, 0, 2], [1.0, 0.5, 0.25, 2, 2]])}
     if name in ("Label", "NoTypeObject"):
         return {}
-    if name == "Curve" or name == "AirborneMagnetics":
-        return {"vertices": V3.copy(), "cells": LOOP.copy()}
-    return {"vertices": V3.copy()}
+    if name in ("Curve", "AirborneMagnetics"):
+        return {"vertices": V5.copy(), "cells": LINE.copy()}
+    return {"vertices": V5.copy()}
 
 
 class Fixture:  # pylint: disable=too-many-instance-attributes
@@ -341,28 +356,28 @@ class Fixture:  # pylint: disable=too-many-instance-attributes
                     self.aux["tx"] = other.uid
                 # two spare partners for the entity-valued attributes
                 for i in (1, 2):
-                    sp_rx = type(rx).create(ws, vertices=V3 + i, name=f"rx{i}")
+                    sp_rx = type(rx).create(ws, vertices=V5 + i, name=f"rx{i}")
                     self.aux[f"rx{i}"] = sp_rx.uid
                     if other is not None:
-                        sp_tx = type(other).create(ws, vertices=V3 + 10.0 + i, name=f"tx{i}")
+                        sp_tx = type(other).create(ws, vertices=V5 + 10.0 + i, name=f"tx{i}")
                         self.aux[f"tx{i}"] = sp_tx.uid
-                d = ent.add_data({"txid": {"values": np.array([1, 1, 2], dtype="int32"), "association": "VERTEX",
+                d = ent.add_data({"txid": {"values": np.array([1, 1, 2, 2, 1], dtype="int32"), "association": "VERTEX",
                                            "type": "referenced", "value_map": {1: "a", 2: "b"}}})
                 self.aux["refdata"] = d.uid
-                f = ent.add_data({"fdata": {"values": np.array([1.0, 2.0, 3.0]), "association": "VERTEX"}})
+                f = ent.add_data({"fdata": {"values": np.array([1.5, 2.5, 3.5, 4.5, 5.5]), "association": "VERTEX"}})
                 self.aux["floatdata"] = f.uid
             elif name in ("CurrentElectrode", "PotentialElectrode"):
-                cur = objects.CurrentElectrode.create(ws, vertices=V3.copy(), cells=LOOP[:2].copy(), name="cur")
+                cur = objects.CurrentElectrode.create(ws, vertices=V5.copy(), cells=LINE.copy(), name="cur")
                 cur.add_default_ab_cell_id()
-                pot = objects.PotentialElectrode.create(ws, vertices=V3 + 1.0, cells=LOOP[:2].copy(), name="pot")
-                pot.ab_cell_id = np.array([1, 2], dtype="int32")
+                pot = objects.PotentialElectrode.create(ws, vertices=V5 + 1.0, cells=LINE.copy(), name="pot")
+                pot.ab_cell_id = np.array([1, 2, 3, 4], dtype="int32")
                 pot.current_electrodes = cur
                 ent = cur if name == "CurrentElectrode" else pot
                 for i in (1, 2):
-                    c2 = objects.CurrentElectrode.create(ws, vertices=V3 + 20.0 * i, cells=LOOP[:2].copy(), name=f"cur{i}")
+                    c2 = objects.CurrentElectrode.create(ws, vertices=V5 + 20.0 * i, cells=LINE.copy(), name=f"cur{i}")
                     c2.add_default_ab_cell_id()
-                    p2 = objects.PotentialElectrode.create(ws, vertices=V3 + 20.0 * i + 1, cells=LOOP[:2].copy(), name=f"pot{i}")
-                    p2.ab_cell_id = np.array([1, 2], dtype="int32")
+                    p2 = objects.PotentialElectrode.create(ws, vertices=V5 + 20.0 * i + 1, cells=LINE.copy(), name=f"pot{i}")
+                    p2.ab_cell_id = np.array([1, 2, 3, 4], dtype="int32")
                     self.aux[f"cur{i}"] = c2.uid
                     self.aux[f"pot{i}"] = p2.uid
                 self.aux["cur"] = cur.uid
@@ -490,24 +505,36 @@ class Fixture:  # pylint: disable=too-many-instance-attributes
         ent = ws.get_entity(self.uid)[0]
         return ent.entity_type.uid
 
-    def raw(self, snap, type_uid=None):
-        """node of the entity in an h5snap snapshot -> {"attrs": {...}, "datasets": {...}} or None"""
-        if self.kind == "header":
-            return {"attrs": snap.get("header", {}), "datasets": {}}
-        uid = str(self.uid)
-        if self.kind in ("object", "group", "data"):
-            cont = {"object": "Objects", "group": "Groups", "data": "Data"}[self.kind]
-            return snap["nodes"].get(cont, {}).get(uid)
-        if self.kind in ("otype", "gtype", "dtype"):
-            cont = {"otype": "Object types", "gtype": "Group types", "dtype": "Data types"}[self.kind]
-            return snap["types"].get(cont, {}).get(str(type_uid))
-        if self.kind == "pg":
-            holder = snap["nodes"].get("Objects", {}).get(str(self.aux["holder"]))
-            if holder is None:
+    def raw(self, h5file, type_uid=None):
+        """content of the node of the entity read with plain h5py (h5snap helpers): {"attrs": {...}, "datasets":
+        {name: {"sha", "shape", ...}}} or None when the node does not exist"""
+        import h5py
+        from . import h5snap
+        base = h5file[list(h5file.keys())[0]]
+
+        def br(u):
+            return "{" + str(u) + "}"
+        try:
+            if self.kind == "header":
+                node = base
+            elif self.kind in ("object", "group", "data"):
+                node = base[{"object": "Objects", "group": "Groups", "data": "Data"}[self.kind]][br(self.uid)]
+            elif self.kind in ("otype", "gtype", "dtype"):
+                cont = {"otype": "Object types", "gtype": "Group types", "dtype": "Data types"}[self.kind]
+                node = base["Types"][cont][br(type_uid)]
+            elif self.kind == "pg":
+                node = base["Objects"][br(self.aux["holder"])]["PropertyGroups"][br(self.uid)]
+            else:
                 return None
-            rec = holder["pgs"].get(uid)
-            return None if rec is None else {"attrs": rec, "datasets": {}}
-        return None
+        except KeyError:
+            return None
+        out = {"attrs": h5snap._attrs(node), "datasets": {}}  # pylint: disable=protected-access
+        if self.kind != "header":
+            for name in node:
+                item = node.get(name, getlink=True)
+                if isinstance(item, h5py.HardLink) and isinstance(node[name], h5py.Dataset):
+                    out["datasets"][name] = h5snap._ds(node[name])  # pylint: disable=protected-access
+        return out
 
 
 # ----------------------------------------------------------------------------------------------------------------------
@@ -600,9 +627,12 @@ def domain(fx: Fixture, ent, attr, cur):  # pylint: disable=too-many-return-stat
             a["EM Dataset"]["Extra"] = "xé"
             b["EM Dataset"]["Extra"] = [1, 2.5]
             return [a, b], base
-        if isinstance(cur, dict):
-            return _generic(cur), base
-        return [{"key": "vé", "n": 1}, {"key": "w", "m": [1, 2.5]}], {"key": "zero"}
+        # the setter UPDATES the stored dictionary (entity.py:238-240, documented), so the values of the domain share
+        # their keys: then updating and replacing coincide
+        if isinstance(cur, dict) and cur:
+            k0 = sorted(cur)[0]
+            return [{**copy.deepcopy(cur), k0: "vé"}, {**copy.deepcopy(cur), k0: [1, 2.5]}], base
+        return [{"key": "vé"}, {"key": [1, 2.5]}], {"key": "zero"}
     if attr == "options":
         if not isinstance(cur, dict) or not cur:
             return [{"title": "t1", "n": 2}, {"title": "t2é", "m": [1, 2]}], {"title": "t0", "n": 1}
@@ -621,10 +651,15 @@ def domain(fx: Fixture, ent, attr, cur):  # pylint: disable=too-many-return-stat
             n = int(arr.max()) + 1
             return [np.roll(arr, 1, axis=0).astype("uint32"), ((arr + 1) % n).astype("uint32")], base
     if attr == "parts":
+        # parts are recomputed from the cells: a part needs at least two consecutive vertices to exist
         arr = np.asarray(cur)
-        one = arr.copy()
-        one[-1] = one[-1] + 1
-        two = np.arange(len(arr)).astype(arr.dtype)
+        if name in ("CurrentElectrode", "PotentialElectrode"):
+            raise Skip("another partition changes the number of cells, to which the mandatory A-B Cell ID data is tied (C07)")
+        if len(arr) < 5 or len(set(arr.tolist())) != 1:
+            raise Skip("fixture too small for three valid partitions")
+        one, two = arr.copy(), arr.copy()
+        one[2:] += 1
+        two[3:] += 1
         return [one, two], base
     if attr == "octree_cells":
         arr = np.asarray(cur)
@@ -721,10 +756,12 @@ def domain(fx: Fixture, ent, attr, cur):  # pylint: disable=too-many-return-stat
     if attr == "values" and cur is None:
         raise Skip("no stored values to derive a domain from")
     if attr == "image":
-        return [np.arange(4 * 5 * 3, dtype="uint8").reshape(4, 5, 3)[::-1].copy(),
-                (np.arange(4 * 5 * 3, dtype="uint8").reshape(4, 5, 3) // 2)], base
+        from PIL import Image
+        arr = np.arange(4 * 5 * 3, dtype="uint8").reshape(4, 5, 3)
+        return [Image.fromarray(arr[::-1].copy()), Image.fromarray(arr // 2)], base
     if attr == "tag":
-        raise Skip("GeoImage.tag is the georeferencing tag dictionary derived from the image file (TIFF tags)")
+        raise Skip("GeoImage.tag is an in-memory copy of the TIFF tags of the image used by the TIFF export; the format "
+                   "has no place for it")
     if attr == "last_focus":
         return ["Focus-1", "focus é"], base
     if attr == "ab_cell_id":
